@@ -8,11 +8,18 @@
   It puts no restriction on the shape of SEQUENCE / SET / CHOICE types (F25, the early return of
   the SEQUENCE / SET walkers, is repaired): only the leaves are restricted.
 
-  F81  INTEGER_t-backed INTEGER whose value does not fit `long` ("value too large").
-  F83  FROM on UTF8String / OCTET STRING / BIT STRING (ignored or not applicable).
+  F81r INTEGER_t-backed INTEGER whose value does not fit the C variable the generated code reads it
+       into ("value too large"): `unsigned long` when the lower edge of the constraint is a value
+       ≥ 0 (F81 repaired: every value up to 2^64-1 is inside), `long` otherwise.
+  F83r FROM on UTF8String that reaches beyond U+007F (not tested), FROM on OCTET STRING /
+       BIT STRING (not applicable).  A FROM within 0..127 — one range or several — is tested
+       through the table (F83 repaired) and lies inside.
   F84  UTF-8 sequences on which UTF8String_length (RFC 2279 era) and RFC 3629 disagree.
-  F85  a union whose overall span is vacuous for the C type is dropped as a whole
-       (`(MIN..0 | 5..MAX)`, `SIZE(0..2 | 5..MAX)`); BMPString cells FFFE/FFFF.
+  F182 a value / SIZE bound of 2^64 or more in magnitude: the C compiler truncates the decimal
+       constant of the emitted comparison ("integer constant is too large for its type"), which
+       `Cmp.eval` does not model.
+  Repaired and inside: unions whose outer edges are MIN / MAX (`(MIN..0 | 5..MAX)`,
+  `SIZE(0..2 | 5..MAX)`, F85); BMPString cells FFFE / FFFF under a SIZE / FROM constraint (F86).
 -/
 import Asn1cModel.Impl.ConstraintCheck
 namespace Asn1c.Impl.ConstraintCheck
@@ -23,26 +30,38 @@ open Asn1c.Spec.ConstraintCheck
 def mixedFree (rs : Cons) (ns ne : Option Int) : Bool :=
   rs.length ≤ 1 || rs.all (fun r => (emitOne r ns ne).isSome)
 
-def dropped (rs : Cons) : Bool := (overallLo rs).isNone && (overallHi rs).isNone
+def dropped (rs : Cons) : Bool := decide (rs.length ≤ 1) && (overallLo rs).isNone && (overallHi rs).isNone
 
 def intNs (rs : Cons) : Option Int := if nativeLongSign rs ≥ 0 then some 0 else none
 
-/-- the value can sit in the C member and is read back exactly -/
-def reprOK (r : IntRepr) (i : Int) : Bool :=
+/-- the value can sit in the C member and is read back exactly (`usign`: an INTEGER_t read
+    through asn_INTEGER2ulong) -/
+def reprOK (r : IntRepr) (usign : Bool) (i : Int) : Bool :=
   match r with
   | .ulong => decide (0 ≤ i) && decide (i ≤ 18446744073709551615)
-  | _ => decide (-9223372036854775808 ≤ i) && decide (i ≤ 9223372036854775807)
+  | .wide =>
+    if usign then decide (0 ≤ i) && decide (i ≤ 18446744073709551615)
+    else decide (-9223372036854775808 ≤ i) && decide (i ≤ 9223372036854775807)
+  | .long => decide (-9223372036854775808 ≤ i) && decide (i ≤ 9223372036854775807)
+
+/-- every written bound is a decimal constant the C compiler can type (`long`, `long long`, or
+    `__int128` for the values up to 2^64-1 that do not fit them) -/
+def boundsFit (rs : Cons) : Bool :=
+  rs.all fun r =>
+    (match r.lo with | some l => decide (-18446744073709551615 ≤ l) && decide (l ≤ 18446744073709551615) | none => true) &&
+    (match r.hi with | some h => decide (-18446744073709551615 ≤ h) && decide (h ≤ 18446744073709551615) | none => true)
 
 def intDom (rs : Cons) (i : Int) : Bool :=
-  !rs.isEmpty && reprOK (fitsLong rs) i
-  && mixedFree rs (intNs rs) none && (!dropped rs || rs.length == 1)
+  !rs.isEmpty && reprOK (fitsLong rs) (decide (nativeLongSign rs ≥ 0)) i
+  && mixedFree rs (intNs rs) none && boundsFit rs
 
 /-- the generated INTEGER checker contains a test -/
 def intTests (rs : Cons) : Bool := !dropped rs && !(emitRange rs (intNs rs) none).isEmpty
 
 def sizeDom (rs : Cons) : Bool :=
-  !rs.isEmpty && mixedFree rs (some 0) none && (keepSize rs || rs.length == 1)
+  !rs.isEmpty && mixedFree rs (some 0) none
   && (match overallLo rs with | some l => decide (0 ≤ l) | none => true)      -- sizes are not negative
+  && boundsFit rs
 
 /-- guard for an optional SIZE constraint -/
 def sizeOptDom (size : Option Cons) : Bool :=
@@ -70,16 +89,15 @@ def strDom (k : StrKind) (size alpha : Option Cons) (bs : List Nat) (unused : Na
   && (k != .bit || (decide (unused ≤ 7) && (!bs.isEmpty || unused == 0)))
   && sizeOptDom size
   && (match alpha with
-      | some rs => k != .octet && k != .bit && k != .utf8 && alphaDom k rs
+      | some rs => k != .octet && k != .bit && (k != .utf8 || useTable .utf8 rs) && alphaDom k rs
       | none => true)
   && (k != .utf8 || utf8Agree bs)
-  && (k != .bmp || (loopChars 2 bs.length bs).all (· ≤ 65533))
 
 mutual
 /-- guard for `descrChk _ t v` -/
 def domDescr : Ty → Val → Bool
   | .named _ t, v => domDescr t v
-  | .int none, .int i => reprOK .long i
+  | .int none, .int i => reprOK .long false i
   | .int (some rs), .int i => intDom rs i
   | .str k size alpha, v =>
       (match strValue k v with
@@ -94,7 +112,7 @@ def domDescr : Ty → Val → Bool
 /-- guard for `memberChk _ t v` -/
 def domMember : Ty → Val → Bool
   | .named _ t, v => domDescr t v
-  | .int none, .int i => reprOK .long i
+  | .int none, .int i => reprOK .long false i
   | .int (some rs), .int i => intDom rs i
   | .str k size alpha, v =>
       (match strValue k v with
